@@ -4,7 +4,7 @@ Closed model Weights.tla: three NodePools with weights from {unset, 1, 10, 10} (
 (taints, limits, requirements, minValues, not Ready, ...), a catalog whose price order depends on zone / capacity type /
 availability, 2-3 pods; the MECHANISM (weight order, relaxation ladder, per-template filter, lowest admissible index, limits
 charged with the largest capacity, OrderByPrice + Truncate + minValues, FinalizeScheduling, ToNodeClaim) must imply the ORACLE
-of WeightsGuards.tla at every commitment; 14 spec mutations must be rejected; ParallelMin.tla covers the parallel selection.
+of WeightsGuards.tla at every commitment; 15 spec mutations must be rejected; ParallelMin.tla covers the parallel selection.
 TLC then ENUMERATES scenarios (Weights_Gen.cfg); they - plus hand-made cells and seeded explorer scenarios of the `weights`
 alphabet (checks/weights_common.py: the sub-alphabet for which FeasibleFresh is exact) - run through the real
 Provisioner.Schedule + CreateNodeClaims with 1 / 2 / 8 evaluation workers, both minValues policies and a reduced
@@ -19,29 +19,60 @@ from checks import weights_common as wc
 import vlib
 
 SCOPE = {
-    "quick": dict(mc=["Weights_MC.cfg"], gen="Weights_Gen.cfg", replay=700, explore=1500, each_weak=False),
+    "quick": dict(mc=["Weights_MC.cfg"], gen="Weights_Gen.cfg", replay=500, explore=1000, grid=12, each_weak=False),
     "thorough": dict(mc=["Weights_MC.cfg", "Weights_MC_T1.cfg", "Weights_MC_T2.cfg", "Weights_MC_T3.cfg"], gen="Weights_Gen_T.cfg", replay=None,
-                     explore=15000, each_weak=True),
+                     explore=15000, grid=200, each_weak=True),
 }
 
 
-def closed_model(run, tier, dev):
-    w = 4 if dev else None
-    for cfg in tier["mc"]:
-        run.closed_model("Weights", cfg, workers=w, heap="4g" if dev else "8g", timeout=5400)
+def account(run, module, cfg, r):
+    """book a closed-model run (what Run.closed_model does, for jobs started through Run.tlc in a thread)"""
+    run.states += r.distinct
+    run.transitions += r.generated
+    run.models.append({"module": module, "cfg": cfg, "distinct": r.distinct, "generated": r.generated, "depth": r.depth,
+                       "wall_s": round(r.wall, 1), "violated": r.violated})
+    if not r.ok:
+        raise vlib.InfraError("closed model %s/%s does not satisfy its invariants (%s); model and code must be reconciled before this "
+                              "check can be trusted" % (module, cfg, r.violated or r.error))
+
+
+def start_model_jobs(run, tier, dev, ex):
+    """the closed-model stage as independent TLC jobs (Run.tlc is thread-safe); returns the futures for finish_model_jobs"""
+    big = 4 if dev else (8 if run.tier == "quick" else None)
+
+    def mc_chain():        # the exhaustive runs one after the other (the thorough ones want every core)
+        return [(cfg, run.tlc("Weights", cfg, workers=big, heap="4g" if dev else "8g", timeout=5400)) for cfg in tier["mc"]]
+
+    def weak_each():
+        return [(x, run.tlc("Weights", "Weights_Weak_%s.cfg" % x, workers=2, expect_violation=True, timeout=1800, heap="4g")) for x in wc.ALL_WEAK]
+
+    return {
+        "mc": ex.submit(mc_chain),
+        "cov": ex.submit(run.tlc, "Weights", "Weights_Cov.cfg", workers=2, coverage=True, timeout=1800),
+        "weak": ex.submit(run.tlc, "Weights", "Weights_WeakAll.cfg", workers=2, timeout=3600, heap="4g"),
+        "each": ex.submit(weak_each) if tier["each_weak"] else None,
+        "pmin": ex.submit(run.tlc, "ParallelMin", "ParallelMin_MC.cfg", workers=1, timeout=900),
+        "pweak": ex.submit(run.tlc, "ParallelMin", "ParallelMin_Weak.cfg", workers=1, expect_violation=True, timeout=900),
+    }
+
+
+def finish_model_jobs(run, jobs):
+    for cfg, r in jobs["mc"].result():
+        account(run, "Weights", cfg, r)
     # vacuity 1: every action taken, and TLC reaches a fallback to a lighter pool, a real truncation and a failed pod
-    r = run.tlc("Weights", "Weights_Cov.cfg", workers=2, coverage=True, timeout=1800)
+    r = jobs["cov"].result()
     if not r.ok:
         raise vlib.InfraError("coverage run of the closed model failed: %s" % (r.violated or r.error))
-    zero = [m.group(1) for m in re.finditer(r"^<(\w+ line \d+[^>]*)>: (\d+):0$", r.stdout, re.M)]
-    acts = re.findall(r"^<(?:NextCov|Emit) line [^>]*>: \d+:\d+$", r.stdout, re.M)
+    final = r.stdout.split("The coverage statistics at")[-1]      # a slow run also prints interim reports (levels not reached yet)
+    zero = [m.group(1) for m in re.finditer(r"^<(\w+ line \d+[^>]*)>: (\d+):0$", final, re.M)]
+    acts = re.findall(r"^<(?:NextCov|Emit) line [^>]*>: \d+:\d+$", final, re.M)
     if zero or len(acts) < 5:
         raise vlib.InfraError("vacuous closed model: actions never taken %s (%d action lines)" % (zero, len(acts)))
     reach = set(re.findall(r'<<"REACH", "(\w+)">>', r.stdout))
     if reach != {"fallback", "truncation", "failure"}:
         raise vlib.InfraError("vacuous closed model: TLC did not reach %s" % ({"fallback", "truncation", "failure"} - reach))
     # vacuity 2: every spec mutation is rejected (one run for all; thorough: also one run per Weights_Weak_*.cfg)
-    wr = run.tlc("Weights", "Weights_WeakAll.cfg", workers=w, timeout=3600, heap="4g")
+    wr = jobs["weak"].result()
     seen = {}
     for rule, guard in re.findall(r'<<"REJ", "(\w+)", "(\w+)">>', wr.stdout):
         seen.setdefault(rule, set()).add(guard)
@@ -49,20 +80,20 @@ def closed_model(run, tier, dev):
     if missing or not wr.ok:
         raise vlib.InfraError("spec mutations not rejected by TLC: %s" % (missing or wr.error))
     run.notes.append("spec mutations rejected: " + ", ".join("%s->%s" % (k, "/".join(sorted(v))) for k, v in sorted(seen.items())))
-    if tier["each_weak"]:
-        for x in wc.ALL_WEAK:
-            one = run.tlc("Weights", "Weights_Weak_%s.cfg" % x, workers=w, expect_violation=True, timeout=1800, heap="4g")
+    if jobs["each"]:
+        for x, one in jobs["each"].result():
             if not one.violated or one.violated not in wc.INVS:
                 raise vlib.InfraError("spec mutation Weights_Weak_%s.cfg not rejected by TLC (got %s)" % (x, one.violated or one.error))
     # every degree of parallel template evaluation: the lowest-index selection is schedule-independent
-    run.closed_model("ParallelMin", "ParallelMin_MC.cfg", workers=2, timeout=900)
-    pw = run.tlc("ParallelMin", "ParallelMin_Weak.cfg", workers=2, expect_violation=True, timeout=900)
-    if pw.violated != "Inv_SelectionIsLowest":
+    account(run, "ParallelMin", "ParallelMin_MC.cfg", jobs["pmin"].result())
+    if jobs["pweak"].result().violated != "Inv_SelectionIsLowest":
         raise vlib.InfraError("spec mutation ParallelMin_Weak.cfg not rejected by TLC")
 
 
-def scenarios_for(run, tier, rng):
-    enum = [wc.fix_maps(s) for s in run.generate("Weights", tier["gen"], workers=2, timeout=3600, heap="4g")]
+def scenarios_for(run, tier, rng, gen):
+    if gen.violated or gen.error:
+        raise vlib.InfraError("scenario generation %s failed: %s" % (tier["gen"], gen.violated or gen.error))
+    enum = [wc.fix_maps(s) for s in gen.printed]
     if not enum:
         raise vlib.InfraError("TLC generated no scenarios")
     total = len(enum)
@@ -73,7 +104,7 @@ def scenarios_for(run, tier, rng):
     rng.shuffle(enum)
     out = [sc.with_options(s, wc.OPTION_GRID[i % len(wc.OPTION_GRID)], "o%d" % (i % len(wc.OPTION_GRID))) for i, s in enumerate(enum)]
     # every option variant (both policies x MaxInstanceTypes default / 1 / 2 x 1 / 2 / 8 workers) on a common subset
-    for s in enum[:20 if run.tier == "quick" else 200]:
+    for s in enum[:tier["grid"]]:
         out += [sc.with_options(s, o, "g%d" % j) for j, o in enumerate(wc.OPTION_GRID)]
     out += wc.cells()
     out += [sc.explore(rng, "weights", "x-weights-%d-%d" % (run.seed, i)) for i in range(tier["explore"])]
@@ -103,10 +134,17 @@ def check(run):
     run.rule = ("a behaviour = one scenario (weighted pools x catalog x daemonsets x existing nodes x pod batch x options) run through the real "
                 "Provisioner.Schedule + CreateNodeClaims; it is non-trivial when a C19 guard met a real decision: a pod opened a node while a "
                 "heavier pool existed, a pod of the exact alphabet ended without a home, or an option list was really truncated")
-    if not os.environ.get("VERIF_SKIP_MODEL"):       # developer aid for mutation runs, never used by registered commands
-        closed_model(run, tier, dev)
-    scenarios, total, replayed = scenarios_for(run, tier, rng)
-    viol, cases, sums = wc.replay_and_validate(run, scenarios, "c19", procs, par)
+    import concurrent.futures as cf
+    # independent TLC jobs, the harness build, the drivers and the trace validation run concurrently (Run.tlc is thread-safe)
+    with cf.ThreadPoolExecutor(max_workers=10) as ex:
+        f_build = ex.submit(run.build_drv)
+        f_gen = ex.submit(run.tlc, "Weights", tier["gen"], workers=2, timeout=3600, heap="4g", collect_beh=True)
+        jobs = None if os.environ.get("VERIF_SKIP_MODEL") else start_model_jobs(run, tier, dev, ex)   # skip: developer aid for mutation runs
+        scenarios, total, replayed = scenarios_for(run, tier, rng, f_gen.result())
+        f_build.result()
+        viol, cases, sums = wc.replay_and_validate(run, scenarios, "c19", procs, par)
+        if jobs:
+            finish_model_jobs(run, jobs)
     tot = judge(run, viol, cases, sums)
     mine = [v for v in run.viol if run.pmap.get(v.get("guard", "")) == run.pid]
     if not mine and (tot["guarded"] == 0 or tot["truncated"] == 0):      # a verdict is never masked by the vacuity test
